@@ -483,19 +483,35 @@ func guarded(timeout time.Duration, f func() (string, error)) observation {
 	}
 }
 
-// panicSite returns the innermost plush function on the panicking stack.
+// panicSite returns the innermost plush function on the panicking stack.  A panic raised by code that is
+// neither plush's nor the Go runtime's / reflect's own (a method or function of the DATA, e.g. a String method
+// that does not expect a nil receiver) is reported as "usercode:<function>": the engine called what it was asked
+// to call, the way Go would.
 func panicSite(stack string) string {
 	lines := strings.Split(stack, "\n")
 	seenPanic := false
+	first := true
 	for _, l := range lines {
 		if strings.HasPrefix(l, "panic(") {
 			seenPanic = true
 			continue
 		}
-		if !seenPanic {
+		if !seenPanic || strings.HasPrefix(l, "\t") || l == "" {
 			continue
 		}
-		if strings.HasPrefix(l, "github.com/gobuffalo/plush/v5") && !strings.Contains(l, "verif") {
+		isPlush := strings.HasPrefix(l, "github.com/gobuffalo/plush/v5") && !strings.Contains(l, "verif")
+		// (the autogenerated wrapper of a value method reached through a nil pointer is not the data's code:
+		// whoever calls such a method must check the pointer)
+		if first && !isPlush && !strings.Contains(stack, "called using nil *") && !strings.HasPrefix(l, "runtime.") && !strings.HasPrefix(l, "reflect.") && !strings.HasPrefix(l, "main.guarded") {
+			if i := strings.LastIndex(l, "("); i > 0 {
+				l = l[:i]
+			}
+			return "usercode:" + l
+		}
+		if !strings.HasPrefix(l, "runtime.") {
+			first = false
+		}
+		if isPlush {
 			if i := strings.LastIndex(l, "("); i > 0 {
 				l = l[:i]
 			}
